@@ -12,6 +12,7 @@ import (
 	"unsafe"
 
 	wire "github.com/jeroenrinzema/psql-wire"
+	"github.com/jackc/pgx/v5/pgtype"
 	"github.com/jeroenrinzema/psql-wire/pkg/verifshim/vsched"
 	"github.com/lib/pq/oid"
 	"verif/engine/explore"
@@ -31,6 +32,7 @@ type c15Conn struct {
 }
 
 type c15Spec struct {
+	dependency bool
 	auth   bool
 	name   string
 	desc   string
@@ -60,13 +62,24 @@ func c15Specs() []c15Spec {
 		{name: "S-F", desc: "connection 1 fails an extended message and skips until its Sync while connection 2 runs an extended batch and a simple query (the error / skip state must be per connection)",
 			conns: []c15Conn{{"c1", [][]byte{st("u1"), pgproto.Bind("", "nope", nil, nil, nil), pgproto.Parse("a", "2:p,c=Q1"), pgproto.Sync(), pgproto.Query("1:r,c=T1")}},
 				{"c2", append(append([][]byte{st("u2")}, ext("3:p,c=Q2", "v-two")...), pgproto.Query("1:r,c=T2"))}}},
+		{name: "S-H", desc: "a CancelRequest connection, then two connections of which one registers a private type on its own type map and the other needs that type (type maps must be per connection)",
+			conns: []c15Conn{{"c0", [][]byte{pgproto.CancelRequest(1, 2)}}, {"c1", [][]byte{st("u1"), pgproto.Query("regtype"), pgproto.Query("usetype")}}, {"c2", [][]byte{st("u2"), pgproto.Query("usetype"), pgproto.Query("int4row")}}}},
+		{name: "S-I", desc: "connection 1's handler waits until connection 2's handler has run (no connection may hold up another one)", dependency: true,
+			conns: []c15Conn{{"c1", [][]byte{st("u1"), pgproto.Query("wait-for-other")}}, {"c2", [][]byte{st("u2"), pgproto.Query("signal-other"), pgproto.Query("1:r,c=T2")}}}},
 		{name: "S-G", desc: "2 connections authenticating with cleartext passwords as different users (startup packets and password messages interleave)", auth: true,
 			conns: []c15Conn{{"c1", [][]byte{pgproto.Startup("user", "alice", "database", "db-a"), pgproto.Password("pw-alice"), pgproto.Query("whoami")}},
 				{"c2", [][]byte{pgproto.Startup("user", "bob", "database", "db-b"), pgproto.Password("pw-bob"), pgproto.Query("whoami")}}}},
 	}
 }
 
+//go:norace
+func (o *c15Obs) signal() { o.flag = true }
+
+//go:norace
+func (o *c15Obs) signalled() bool { return o.flag }
+
 type c15Obs struct {
+	flag       bool
 	transcript map[string][]string
 	trace      map[string][]string
 	closed     map[string]bool
@@ -135,6 +148,35 @@ func c15Run(spec c15Spec, only string, obs *c15Obs) {
 				vsched.Yield("handler.int4.2")
 				return w.Complete("SELECT 1")
 			}, wire.WithColumns(wire.Columns{{Name: "n", Oid: oid.T_int4}}))), nil
+		case "regtype", "usetype":
+			if r := multi.For(ctx); r != nil {
+				r.Add(script.Ev{Kind: "parse", Query: q})
+			}
+			return wire.Prepared(wire.NewStatement(func(ctx context.Context, w wire.DataWriter, p []wire.Parameter) error {
+				vsched.Yield("handler." + q)
+				if q == "regtype" {
+					// a type this connection registers on ITS type map
+					wire.TypeMap(ctx).RegisterType(&pgtype.Type{Name: "private", OID: 70000, Codec: pgtype.TextCodec{}})
+				}
+				if err := w.Row([]any{"value of a private type"}); err != nil {
+					return err
+				}
+				return w.Complete("SELECT 1")
+			}, wire.WithColumns(wire.Columns{{Name: "p", Oid: 70000}}))), nil
+		case "wait-for-other", "signal-other":
+			if r := multi.For(ctx); r != nil {
+				r.Add(script.Ev{Kind: "parse", Query: q})
+			}
+			return wire.Prepared(wire.NewStatement(func(ctx context.Context, w wire.DataWriter, p []wire.Parameter) error {
+				if q == "signal-other" {
+					vsched.Cond("handler.signal", uintptr(unsafe.Pointer(obs)), nil)
+					obs.signal()
+				} else if only == "" {
+					// (served alone there is nobody to wait for)
+					vsched.Cond("handler.wait-for-other-connection", uintptr(unsafe.Pointer(obs)), obs.signalled)
+				}
+				return w.Complete("OK")
+			})), nil
 		case "whoami":
 			if r := multi.For(ctx); r != nil {
 				r.Add(script.Ev{Kind: "parse", Query: q})
@@ -271,7 +313,9 @@ func init() {
 			switch {
 			case tier != "thorough" && (sp.name == "S-D" || sp.name == "S-E"):
 				continue
-			case tier == "thorough" && (sp.name == "S-A" || sp.name == "S-C" || sp.name == "S-G"):
+			case tier != "thorough" && sp.name == "S-H":
+				bound = 1
+			case tier == "thorough" && (sp.name == "S-A" || sp.name == "S-C" || sp.name == "S-G" || sp.name == "S-I"):
 				bound = -1 // unbounded (all schedules, happens-before state cache)
 			case tier == "thorough":
 				bound = 3
